@@ -41,10 +41,16 @@ fn main() {
     let ctx = Ctx::from_env("C04");
     set_checker(check_c04);
     if let Some(r) = ctx.replay_request() {
+        if r["leg"].as_str().map(|l| l.starts_with("uplinks")).unwrap_or(false) {
+            asys::uplinks::replay(&ctx, r);
+            ctx.finish("model_checking", "replay");
+        }
         replay(&ctx, r);
         ctx.finish("model_checking", "replay");
     }
     let quick = ctx.quick();
+    // --- leg 0 (E2): the real Uplinks scheduler alone, every operation history to a depth bound
+    asys::uplinks::run(&ctx, "uplinks-bfs", if quick { 6 } else { 8 }, |_| true);
     let p = pool();
     // --- leg 1: full grid, d <= 1
     let mut cfgs = vec![];
